@@ -1534,4 +1534,289 @@ theorem findDestination_range (cs : Nat → Nat) (np : Nat) (k : Nat) (hk : k < 
   simp only [sharesI, List.length_map, List.length_range] at this ⊢
   omega
 
+/-! ### global numbering of the items of `ref_mpi_balance` -/
+
+/-- the elements whose index lies in `[a, b)` form a contiguous run -/
+theorem filter_interval {β : Type} (G : List β) (j0 a b : Nat) :
+    ((G.zipIdx j0).filter (fun x => decide (a ≤ x.2 ∧ x.2 < b))).map (·.1)
+      = (G.drop (a - j0)).take (b - max a j0) := by
+  induction G generalizing j0 with
+  | nil => simp
+  | cons x xs ih =>
+    rw [List.zipIdx_cons, List.filter_cons]
+    by_cases hin : a ≤ j0 ∧ j0 < b
+    · simp only [hin, and_self, decide_true, if_true, List.map_cons]
+      rw [ih (j0 + 1)]
+      have e1 : a - j0 = 0 := by omega
+      have e2 : a - (j0 + 1) = 0 := by omega
+      have e3 : b - max a j0 = (b - max a (j0 + 1)) + 1 := by omega
+      rw [e1, e2, e3]
+      simp
+    · simp only [hin, decide_false, Bool.false_eq_true, if_false]
+      rw [ih (j0 + 1)]
+      by_cases hlt : j0 < a
+      · have e1 : a - j0 = (a - (j0 + 1)) + 1 := by omega
+        have e2 : max a (j0 + 1) = max a j0 := by omega
+        rw [e1, e2, List.drop_succ_cons]
+      · have e1 : b - max a j0 = 0 := by omega
+        have e2 : b - max a (j0 + 1) = 0 := by omega
+        rw [e1, e2]; simp
+
+theorem bucket_flatMap (r : Nat) (w : List (List (Nat × List α))) : w.flatMap (bucket r) = bucket r w.flatten := by
+  induction w with
+  | nil => simp [bucket]
+  | cons x xs ih =>
+    simp only [List.flatMap_cons, List.flatten_cons, ih]
+    simp [bucket, List.filter_append]
+
+/-- numbering the items rank by rank, each rank starting at the number of items before it, is numbering the
+    concatenation -/
+theorem flatten_mapIdx_zipIdx {β γ : Type} (g : β × Nat → γ) (L : List (List β)) (j0 : Nat) :
+    (L.mapIdx (fun r l => (l.zipIdx (j0 + ((L.take r).flatten).length)).map g)).flatten
+      = ((L.flatten).zipIdx j0).map g := by
+  induction L generalizing j0 with
+  | nil => simp
+  | cons l L ih =>
+    rw [List.mapIdx_cons]
+    have hcongr : (List.mapIdx (fun i l' => (l'.zipIdx (j0 + (((l :: L).take (i + 1)).flatten).length)).map g) L)
+        = (List.mapIdx (fun i l' => (l'.zipIdx ((j0 + l.length) + ((L.take i).flatten).length)).map g) L) := by
+      apply List.ext_getElem
+      · simp
+      · intro i h1 h2
+        simp only [List.getElem_mapIdx, List.take_succ_cons, List.flatten_cons, List.length_append]
+        rw [Nat.add_assoc]
+    rw [hcongr, List.flatten_cons, ih (j0 + l.length)]
+    simp [List.zipIdx_append]
+
+/-! ### `ref_mpi_balance`, world level -/
+
+/-- the `ref_mpi_balance` arguments of a world in which rank `r` holds the items `ws[r]` -/
+def balanceIn (ws : World (List (List α))) : World (Nat × List α) :=
+  ws.map fun its => (its.length, its.flatten)
+
+/-- what rank `r` holds afterwards: the `r`-th run of the concatenation, runs as long as the shares -/
+def balanced (first last : Nat) (ws : World (List (List α))) (r : Nat) : List (List α) :=
+  slice ws.flatten (prefSum (shareNat ws.flatten.length first last) r) (shareNat ws.flatten.length first last r)
+
+/-- destination (as a natural number) of the item with global number `k` -/
+def fdN (first last : Nat) (ws : World (List (List α))) (k : Nat) : Nat :=
+  (findDestination ws.length (sharesI (shareNat ws.flatten.length first last) ws.length) (k : Int)).toNat
+
+/-- the `(destination, item)` pairs rank by rank -/
+def balancePairs (first last : Nat) (ws : World (List (List α))) : World (List (Nat × List α)) :=
+  ws.mapIdx fun r its =>
+    (its.zipIdx (0 + ((ws.take r).flatten).length)).map fun x => (fdN first last ws x.2, x.1)
+
+theorem take_flatten_le {β : Type} (L : List (List β)) (r : Nat) (hr : r < L.length) :
+    ((L.take r).flatten).length + L[r].length ≤ L.flatten.length := by
+  have h1 : L.take (r + 1) = L.take r ++ [L[r]] := List.take_succ_eq_append_getElem hr
+  have h2 : L = L.take (r + 1) ++ L.drop (r + 1) := (List.take_append_drop _ _).symm
+  have h3 : L.flatten.length = ((L.take (r + 1)).flatten).length + ((L.drop (r + 1)).flatten).length := by
+    conv => lhs; rw [h2]
+    rw [List.flatten_append, List.length_append]
+  rw [h3, h1, List.flatten_append, List.length_append]
+  simp only [List.flatten_cons, List.flatten_nil, List.append_nil]
+  omega
+
+theorem balanced_length (first last : Nat) (ws : World (List (List α))) (hfl : first ≤ last) (hl : last < ws.length)
+    (r : Nat) (hr : r < ws.length) :
+    (balanced first last ws r).length = shareNat ws.flatten.length first last r := by
+  unfold balanced slice
+  rw [List.length_take, List.length_drop]
+  have h1 := prefSum_mono (shareNat ws.flatten.length first last) (r + 1) ws.length (by omega)
+  rw [prefSum_succ, prefSum_shareNat_total _ first last ws.length hfl hl] at h1
+  omega
+
+theorem balancePairs_delivered (first last : Nat) (ws : World (List (List α))) (hfl : first ≤ last)
+    (hl : last < ws.length) (r : Nat) (hr : r < ws.length) :
+    delivered r (balancePairs first last ws) = balanced first last ws r := by
+  unfold delivered balancePairs
+  rw [bucket_flatMap, flatten_mapIdx_zipIdx (fun x => (fdN first last ws x.2, x.1)) ws 0]
+  unfold bucket
+  rw [List.filter_map, List.map_map]
+  have hpred : (ws.flatten.zipIdx 0).filter ((fun x => x.1 == r) ∘ fun x => (fdN first last ws x.2, x.1))
+      = (ws.flatten.zipIdx 0).filter (fun x => decide
+          (prefSum (shareNat ws.flatten.length first last) r ≤ x.2
+            ∧ x.2 < prefSum (shareNat ws.flatten.length first last) (r + 1))) := by
+    apply List.filter_congr
+    intro x hx
+    obtain ⟨it, k⟩ := x
+    have hk := (List.mem_zipIdx hx).2.1
+    have hk' : k < prefSum (shareNat ws.flatten.length first last) ws.length := by
+      rw [prefSum_shareNat_total _ first last ws.length hfl hl]; omega
+    have hiff := findDestination_iff (shareNat ws.flatten.length first last) ws.length k r hk' hr
+    have hrg := findDestination_range (shareNat ws.flatten.length first last) ws.length k hk'
+    simp only [Function.comp, fdN]
+    by_cases hc : prefSum (shareNat ws.flatten.length first last) r ≤ k
+        ∧ k < prefSum (shareNat ws.flatten.length first last) (r + 1)
+    · have := hiff.mpr hc
+      have e : (findDestination ws.length (sharesI (shareNat ws.flatten.length first last) ws.length)
+          (k : Int)).toNat = r := by omega
+      rw [e, beq_self_eq_true, decide_eq_true hc]
+    · have hne : findDestination ws.length (sharesI (shareNat ws.flatten.length first last) ws.length) (k : Int)
+          ≠ (r : Int) := fun h => hc (hiff.mp h)
+      have : ¬ ((findDestination ws.length (sharesI (shareNat ws.flatten.length first last) ws.length)
+          (k : Int)).toNat = r) := by omega
+      rw [decide_eq_false hc]
+      exact beq_eq_false_iff_ne.mpr this
+  rw [hpred]
+  have := filter_interval ws.flatten 0 (prefSum (shareNat ws.flatten.length first last) r)
+    (prefSum (shareNat ws.flatten.length first last) (r + 1))
+  simp only [Function.comp_def]
+  rw [this, prefSum_succ]
+  unfold balanced slice
+  congr 1 <;> omega
+
+theorem balance_blind_world (first last : Nat) (ws : World (List (List α))) (hfl : first ≤ last)
+    (hl : last < ws.length) :
+    (balanceIn ws).mapIdx (fun r x =>
+        (⟨destinations (balanceIn ws).length
+            ((balanceIn ws).mapIdx fun r _ =>
+              shareOf (isum ((balanceIn ws).map fun x => (x.1 : Int))) (first : Int) (last : Int) (r : Int))
+            (isum (((balanceIn ws).map fun x => (x.1 : Int)).take r)) x.1, x.2⟩ : Blind α))
+      = (balancePairs first last ws).map blindOf := by
+  have hhaves : ((balanceIn ws).map fun x => (x.1 : Int)) = countsI ws := by
+    simp [balanceIn, countsI, List.map_map, Function.comp_def]
+  have htotal : isum (countsI ws) = (ws.flatten.length : Int) := by
+    rw [isum_eq_sum, countsI_sum_eq_length]
+  have hlen : (balanceIn ws).length = ws.length := by simp [balanceIn]
+  have hshares : ((balanceIn ws).mapIdx fun r _ =>
+        shareOf (isum ((balanceIn ws).map fun x => (x.1 : Int))) (first : Int) (last : Int) (r : Int))
+      = sharesI (shareNat ws.flatten.length first last) ws.length := by
+    rw [hhaves, htotal]
+    apply List.ext_getElem
+    · simp [sharesI, balanceIn]
+    · intro r h1 h2
+      simp only [List.getElem_mapIdx, sharesI, List.getElem_map, List.getElem_range]
+      exact shareOf_eq ws.flatten.length first last r hfl
+  rw [hshares, hhaves, hlen]
+  apply List.ext_getElem
+  · simp [balanceIn, balancePairs]
+  · intro r h1 h2
+    have hr : r < ws.length := by simpa [balanceIn] using h1
+    simp only [List.getElem_mapIdx, List.getElem_map, balanceIn, balancePairs, blindOf, List.map_map,
+      Function.comp_def]
+    have hoff : isum ((countsI ws).take r) = (((ws.take r).flatten).length : Int) := by
+      rw [isum_eq_sum]
+      have : (countsI ws).take r = countsI (ws.take r) := by simp [countsI, List.map_take]
+      rw [this, countsI_sum_eq_length]
+    have hle := take_flatten_le ws r hr
+    have htot := prefSum_shareNat_total ws.flatten.length first last ws.length hfl hl
+    congr 1
+    · -- destinations
+      unfold destinations
+      apply List.ext_getElem
+      · simp
+      · intro i hi1 hi2
+        have hi : i < ws[r].length := by simpa using hi1
+        simp only [List.getElem_map, List.getElem_range, List.getElem_zipIdx, hoff, fdN]
+        have hk : ((ws.take r).flatten).length + i < prefSum (shareNat ws.flatten.length first last) ws.length := by
+          rw [htot]; omega
+        have hrg := findDestination_range (shareNat ws.flatten.length first last) ws.length
+          (((ws.take r).flatten).length + i) hk
+        have e : (((ws.take r).flatten).length : Int) + (i : Int)
+            = ((((ws.take r).flatten).length + i : Nat) : Int) := by push_cast; rfl
+        rw [e, Nat.zero_add]
+        omega
+    · -- the flat item buffer
+      have : (ws[r].zipIdx (0 + ((ws.take r).flatten).length)).map (fun x => x.1) = ws[r] :=
+        List.zipIdx_map_fst _ _
+      rw [this]
+
+theorem length_le_flatten_of_mem {β : Type} (L : List (List β)) (l : List β) (h : l ∈ L) :
+    l.length ≤ L.flatten.length := by
+  obtain ⟨i, hi, rfl⟩ := List.mem_iff_getElem.mp h
+  have := take_flatten_le L i hi
+  omega
+
+theorem balance_eq [Inhabited α] (native : Bool) (ty : RefType) (hty : ty.ild = true) (maxTag : Int)
+    (ldim : Nat) (first last : Nat) (ws : World (List (List α)))
+    (hfl : first ≤ last) (hl : last < ws.length)
+    (hi : ∀ its ∈ ws, ∀ it ∈ its, it.length = ldim)
+    (hnat : native = true → (ws.length : Int) * ws.length ≤ maxTag)
+    (hrange : native = false → (ldim : Int) * ws.flatten.length ≤ INT_MAX) :
+    balance native ty maxTag ldim (first : Int) (last : Int) (balanceIn ws)
+      = some ((List.range ws.length).map fun r =>
+          (Status.ok, ((balanced first last ws r).length : Int), (balanced first last ws r).flatten)) := by
+  unfold balance
+  simp only []
+  rw [balance_blind_world first last ws hfl hl]
+  have hplen : (balancePairs first last ws).length = ws.length := by simp [balancePairs]
+  have htot := prefSum_shareNat_total ws.flatten.length first last ws.length hfl hl
+  have hmem : ∀ pairs ∈ balancePairs first last ws, ∃ r, ∃ hr : r < ws.length,
+      pairs = (ws[r].zipIdx (0 + ((ws.take r).flatten).length)).map fun x => (fdN first last ws x.2, x.1) := by
+    intro pairs hp
+    obtain ⟨r, hr, rfl⟩ := List.mem_iff_getElem.mp hp
+    have hr' : r < ws.length := by simpa [balancePairs] using hr
+    exact ⟨r, hr', by simp [balancePairs]⟩
+  have hspec := blindsend_spec native ty hty maxTag ldim (balancePairs first last ws)
+    (by
+      intro pairs hp x hx
+      obtain ⟨r, hr, rfl⟩ := hmem pairs hp
+      simp only [List.mem_map] at hx
+      obtain ⟨⟨it, k⟩, hk, rfl⟩ := hx
+      have hk2 := (List.mem_zipIdx hk).2.1
+      have hle := take_flatten_le ws r hr
+      have hk' : k < prefSum (shareNat ws.flatten.length first last) ws.length := by rw [htot]; omega
+      have := findDestination_range (shareNat ws.flatten.length first last) ws.length k hk'
+      simp only [fdN, hplen]
+      omega)
+    (by
+      intro pairs hp x hx
+      obtain ⟨r, hr, rfl⟩ := hmem pairs hp
+      simp only [List.mem_map] at hx
+      obtain ⟨⟨it, k⟩, hk, rfl⟩ := hx
+      have hit := (List.mem_zipIdx hk).2.2
+      simp only
+      rw [hit]
+      exact hi ws[r] (List.getElem_mem hr) _ (List.getElem_mem _))
+    (by rw [hplen]; exact hnat)
+    (by
+      intro hn pairs hp
+      obtain ⟨r, hr, rfl⟩ := hmem pairs hp
+      have h1 := length_le_flatten_of_mem ws ws[r] (List.getElem_mem hr)
+      have h2 := hrange hn
+      simp only [List.length_map, List.length_zipIdx]
+      have h3 : (ldim : Int) * (ws[r].length : Int) ≤ (ldim : Int) * (ws.flatten.length : Int) :=
+        Int.mul_le_mul_of_nonneg_left (by omega) (by omega)
+      omega)
+    (by
+      intro hn r hr
+      rw [hplen] at hr
+      rw [balancePairs_delivered first last ws hfl hl r hr, balanced_length first last ws hfl hl r hr]
+      have h2 := hrange hn
+      have h1 : shareNat ws.flatten.length first last r ≤ ws.flatten.length := by
+        have := prefSum_mono (shareNat ws.flatten.length first last) (r + 1) ws.length (by omega)
+        rw [prefSum_succ, htot] at this
+        omega
+      have h3 : (ldim : Int) * (shareNat ws.flatten.length first last r : Int) ≤ (ldim : Int) * (ws.flatten.length : Int) :=
+        Int.mul_le_mul_of_nonneg_left (by omega) (by omega)
+      omega)
+  have hblen : (balanceIn ws).length = ws.length := by simp [balanceIn]
+  rw [hblen] at *
+  rw [hspec, hplen]
+  have hhaves : ((balanceIn ws).map fun x => (x.1 : Int)) = countsI ws := by
+    simp [balanceIn, countsI, List.map_map, Function.comp_def]
+  have htotal : isum (countsI ws) = (ws.flatten.length : Int) := by
+    rw [isum_eq_sum, countsI_sum_eq_length]
+  have hshares : ((balanceIn ws).mapIdx fun r _ =>
+        shareOf (isum ((balanceIn ws).map fun x => (x.1 : Int))) (first : Int) (last : Int) (r : Int))
+      = (List.range ws.length).map fun r => (shareNat ws.flatten.length first last r : Int) := by
+    rw [hhaves, htotal]
+    apply List.ext_getElem
+    · simp [balanceIn]
+    · intro r h1 h2
+      simp only [List.getElem_mapIdx, List.getElem_map, List.getElem_range]
+      exact shareOf_eq ws.flatten.length first last r hfl
+  rw [hshares]
+  simp only [Option.map_some]
+  rw [List.zip_map']
+  simp only [List.map_map, Function.comp_def]
+  congr 1
+  apply List.map_congr_left
+  intro r hr
+  have hr' := List.mem_range.mp hr
+  rw [balancePairs_delivered first last ws hfl hl r hr', balanced_length first last ws hfl hl r hr']
+  simp
+
 end Refine.Lemmas.Comm
